@@ -76,3 +76,63 @@ Example masked_layout_present :
   | None => false
   end = true.
 Proof. vm_compute. reflexivity. Qed.
+
+(* ====================================================================== *)
+(* reader level                                                            *)
+(* ====================================================================== *)
+(* MafReader (model/Reader.v: lines / path / .gz are the same run over the
+   file's lines) instantiated with the concrete columns (model/ColsemColumns.v)
+   and a masked layout as its scheme - whether the pragmas selected it or it
+   was forced with scheme= (`rd_scheme rd`).  Proofs in proofs/FileIOMask.v:
+   generic over the column semantics for a column whose class only validates
+   its null value, then instantiated for the germline columns of the four
+   masked layouts with the tables abstract. *)
+From MafVerif Require Import model.Validation model.Header model.RecordParse model.Reader model.ColsemColumns
+  proofs.FileIOMask.
+
+(* (e) every stringency: in every record the reader yields, each germline
+   column is absent or holds the null value (None) and renders as the empty
+   text - both in the slot list (iteration order, str(record)) and in the name
+   map (record[name], record.value(name)) *)
+Theorem C05_reader_never_exposes_germline :
+  forall (Or : oracles) (registry : list (scheme (cls cref))) (K : Type)
+         (key_of : sorder -> list str -> rec (payload cref pyval) -> res K) (key_lt : K -> K -> bool)
+         annot g l lines m override rd r,
+    In annot masked_layouts -> In g germline6 -> find_layout layouts_ok annot = Some l ->
+    let sem := columns_sem class_table Or in
+    let rn := read_run sem registry key_of key_lt lines m override in
+    run_init rn = Ok rd -> rd_scheme rd = Some (scheme_of_layout l) -> In r (run_recs rn) ->
+    (forall c, In (Some c) (rlist (mcols r)) -> ckey c = s2l g ->
+       (exists mix, pv (cval c) = PTyped mix VNone) /\ col_text sem (pv (cval c)) = Some []) /\
+    (forall k c, In (k, c) (rdict (mcols r)) -> ckey c = s2l g ->
+       (exists mix, pv (cval c) = PTyped mix VNone) /\ col_text sem (pv (cval c)) = Some []).
+Proof.
+  intros Or registry K key_of key_lt annot g l lines m override rd r.
+  exact (reader_never_exposes_germline Or registry K key_of key_lt annot g l lines m override rd r).
+Qed.
+Print Assumptions C05_reader_never_exposes_germline.
+
+(* (e') Strict: data line k (0-based after the column line; `rd_next` and
+   `rd_pending` are the data lines the opened reader holds) carries a
+   non-empty text at a germline position: the reader yields no record for it
+   or for any later line, the run does not end normally, and when every
+   earlier line yielded a record it ends with the format exception carrying
+   that line's physical number *)
+Theorem C05_strict_reader_stops_at_germline :
+  forall (Or : oracles) (registry : list (scheme (cls cref))) (K : Type)
+         (key_of : sorder -> list str -> rec (payload cref pyval) -> res K) (key_lt : K -> K -> bool)
+         annot g l lines override rd cur k line,
+    In annot masked_layouts -> In g germline6 -> find_layout layouts_ok annot = Some l ->
+    let s := scheme_of_layout l in
+    let rn := read_run (columns_sem class_table Or) registry key_of key_lt lines (Some Strict) override in
+    run_init rn = Ok rd -> rd_scheme rd = Some s -> rd_next rd = Some cur ->
+    nth_error (cur :: rd_pending rd) k = Some line ->
+    (exists t, In (s2l g, t) (zip (s_names s) (split TAB (rstrip_crlf line))) /\ t <> []) ->
+    (length (run_recs rn) <= k)%nat /\ run_end rn <> EndStop /\
+    (length (run_recs rn) = k ->
+     exists tp, run_end rn = EndRaise (MafFormat tp (Some (rd_lineno rd + Z.of_nat k)))).
+Proof.
+  intros Or registry K key_of key_lt annot g l lines override rd cur k line.
+  exact (strict_reader_stops_at_germline Or registry K key_of key_lt annot g l lines override rd cur k line).
+Qed.
+Print Assumptions C05_strict_reader_stops_at_germline.
